@@ -104,6 +104,18 @@ struct HLtiState : public LTIStateModel {
     std::size_t n_;
 };
 
+// x' = F_k x (+ u_k) + w, w ~ N(0, Q_k): a linear state model whose matrices may change between steps
+// (variable sampling time and the like); the library's LinearStateModel does the propagation.
+struct HTvState : public LinearStateModel {
+    HTvState(const MatrixXd& F, const MatrixXd& Q) : F_(F), Q_(Q) {}
+    bool setProperty(const std::string&) override { return false; }
+    MatrixXd getStateTransitionMatrix() override { return F_; }
+    MatrixXd getNoiseCovarianceMatrix() override { return Q_; }
+    MatrixXd getJacobian() override { return F_; }
+    VectorDescription getStateDescription() override { return VectorDescription(F_.rows()); }
+    MatrixXd F_, Q_;
+};
+
 struct HConstExo : public ExogenousModel {
     explicit HConstExo(const VectorXd& u) : u_(u) {}
     void propagate(const Ref<const MatrixXd>& cur, Ref<MatrixXd> prop) override { prop = MatrixXd::Zero(cur.rows(), cur.cols()).colwise() + u_; }
@@ -128,6 +140,7 @@ struct HLtiMeas : public LTIMeasurementModel {
     VectorDescription getInputDescription() const override { return VectorDescription(H_.cols(), 0, R_.rows()); }
     VectorDescription getMeasurementDescription() const override { return VectorDescription(H_.rows()); }
     void setNoise(const MatrixXd& R) { R_ = R; }
+    void setH(const MatrixXd& H) { H_ = H; }
     VectorXd y_; int fail_;
 };
 
@@ -189,6 +202,18 @@ static std::string sp(Toks& t) {
     return o.str();
 }
 
+
+// augal lin k comp | means | covs  -- g.augmentWithNoise(g.covariance(comp)): the argument refers to the mixture's own storage
+static std::string augal(Toks& t) {
+    long lin = t.nat(), k = t.nat(), comp = t.nat();
+    GaussianMixture g(k, lin);
+    g.mean() = t.mat(lin, k); g.covariance() = t.mat(lin, lin * k);
+    t.done();
+    bool ret = g.augmentWithNoise(g.covariance(comp));
+    Out o; o.s("ok"); o.n(ret ? 1 : 0); o.n((long)g.dim); o.n((long)g.dim_covariance); o.n((long)g.dim_noise);
+    o.m(g.mean()); o.m(g.covariance());
+    return o.str();
+}
 
 // augns lin k r c | means (lin x k) | covs (lin x lin*k) | Q (r x c)   -- augmentWithNoise with any (also non-square) matrix
 static std::string augns(Toks& t) {
@@ -424,23 +449,46 @@ static std::string ukfps(Toks& t) {
     if (variant == 1) { G = t.mat(n, nz); Q = t.mat(nz, nz); Qeff = t.mat(n, n); } else { Q = t.mat(n, n); Qeff = Q; }
     VectorXd u = t.vec(n);
     long steps = t.nat();
+    // object hand-over: 0 none; 1 move-constructed before the first step; 2 move-constructed after the first step;
+    // 3 move-assigned (into an object built with other parameters over another model) after the first step
+    long hand = t.nat();
     std::unique_ptr<UKFPrediction> up;
+    HTvState* usm0 = nullptr; HGenState* usm1 = nullptr; HConstExo* uexo = nullptr; HConstExo* kexo = nullptr;
     if (variant == 0) {
-        std::unique_ptr<HLtiState> sm(new HLtiState(F, Q));
-        if (exo) sm->add_exogenous_model(std::unique_ptr<ExogenousModel>(new HConstExo(u)));
+        usm0 = new HTvState(F, Q);
+        std::unique_ptr<HTvState> sm(usm0);
+        if (exo) { uexo = new HConstExo(u); sm->add_exogenous_model(std::unique_ptr<ExogenousModel>(uexo)); }
         up.reset(new UKFPrediction(std::unique_ptr<AdditiveStateModel>(std::move(sm)), a, b, kap));
     } else {
         MatrixXd A(n, n + nz); A << F, G;
-        std::unique_ptr<StateModel> sm(new HGenState(A, exo ? u : VectorXd::Zero(n).eval(), Q, VectorDescription(n, 0, nz), VectorDescription(n)));
-        up.reset(new UKFPrediction(std::move(sm), a, b, kap));
+        usm1 = new HGenState(A, exo ? u : VectorXd::Zero(n).eval(), Q, VectorDescription(n, 0, nz), VectorDescription(n));
+        up.reset(new UKFPrediction(std::unique_ptr<StateModel>(usm1), a, b, kap));
     }
-    std::unique_ptr<HLtiState> km(new HLtiState(F, Qeff));
-    if (exo) km->add_exogenous_model(std::unique_ptr<ExogenousModel>(new HConstExo(u)));
-    KFPrediction kp(std::move(km));
+    HTvState* ksm = new HTvState(F, Qeff);
+    std::unique_ptr<HTvState> km(ksm);
+    if (exo) { kexo = new HConstExo(u); km->add_exogenous_model(std::unique_ptr<ExogenousModel>(kexo)); }
+    KFPrediction kp{std::unique_ptr<LinearStateModel>(std::move(km))};
     sigma_point::UTWeight w(VectorDescription(n, 0, variant == 1 ? nz : 0), a, b, kap);
     Out o; o.s("ok");
     for (long s = 0; s < steps; ++s) {
-        bool skip = t.flag(); long k = t.nat();
+        if ((hand == 1 && s == 0) || (hand == 2 && s == 1)) {
+            std::unique_ptr<UKFPrediction> moved(new UKFPrediction(std::move(*up)));
+            up = std::move(moved);
+        } else if (hand == 3 && s == 1) {
+            std::unique_ptr<UKFPrediction> other(new UKFPrediction(std::unique_ptr<AdditiveStateModel>(new HTvState(MatrixXd::Identity(n + 1, n + 1), MatrixXd::Identity(n + 1, n + 1))), 0.7, 1.0, 0.5));
+            *other = std::move(*up);
+            up = std::move(other);
+        }
+        bool skip = t.flag(); long k = t.nat(); bool alias = t.flag();
+        // optional new content of the model from this step on (same sizes): F, noise input G, Q, exogenous input
+        if (t.nat()) {
+            F = t.mat(n, n);
+            if (variant == 1) { G = t.mat(n, nz); Q = t.mat(nz, nz); Qeff = t.mat(n, n); } else { Q = t.mat(n, n); Qeff = Q; }
+            u = t.vec(n);
+            if (usm0) { usm0->F_ = F; usm0->Q_ = Q; if (uexo) uexo->u_ = u; }
+            else { MatrixXd A(n, n + nz); A << F, G; usm1->A_ = A; usm1->Q_ = Q; if (exo) usm1->b_ = u; }
+            ksm->F_ = F; ksm->Q_ = Qeff; if (kexo) kexo->u_ = u;
+        }
         GaussianMixture prev(k, n), predU(k, n), predK(k, n);
         prev.mean() = t.mat(n, k); prev.covariance() = t.mat(n, n * k);
         VectorXd outw = t.vec(k);
@@ -452,7 +500,8 @@ static std::string ukfps(Toks& t) {
         MatrixXd X = sigma_point::sigma_point(inp, w.c);
         up->getStateModel().skip("state", skip);
         kp.getStateModel().skip("state", skip);
-        up->predict(prev, predU);
+        if (alias) { predU = prev; up->predict(predU, predU); }   // the same mixture as input and output
+        else up->predict(prev, predU);
         kp.predict(prev, predK);
         if (s > 0) o.s(";;");
         o.n((long)X.rows()); o.n((long)X.cols());
@@ -469,6 +518,8 @@ static std::string ukfcs(Toks& t) {
     MatrixXd H = t.mat(m, n), D, R, Reff;
     if (variant == 1) { D = t.mat(m, nz); R = t.mat(nz, nz); Reff = t.mat(m, m); } else { R = t.mat(m, m); Reff = R; }
     long steps = t.nat();
+    long hand = t.nat();   // 0 none; 1 move-constructed before the first step; 2 move-constructed after the first step
+    bool cskipping = false;
     VectorXd y0 = VectorXd::Zero(m);
     HLtiMeas* um0 = nullptr; HGenMeas* um1 = nullptr;
     std::unique_ptr<UKFCorrection> uc;
@@ -485,18 +536,27 @@ static std::string ukfcs(Toks& t) {
     sigma_point::UTWeight w(VectorDescription(n, 0, variant == 1 ? nz : 0), a, b, kap);
     Out o; o.s("ok");
     for (long s = 0; s < steps; ++s) {
-        long fail = t.nat(), k = t.nat();
+        if ((hand == 1 && s == 0) || (hand == 2 && s == 1)) {
+            std::unique_ptr<UKFCorrection> moved(new UKFCorrection(std::move(*uc)));
+            uc = std::move(moved);
+        }
+        long fail = t.nat(), k = t.nat(); bool alias = t.flag(); long cskip = t.nat();
+        // cskip: 0 leave, 1 skip(true), 2 skip(false) — set on both corrections BEFORE a possible hand-over of the next step
+        if (cskip == 1) { uc->skip(true); kc.skip(true); cskipping = true; } else if (cskip == 2) { uc->skip(false); kc.skip(false); cskipping = false; }
         // optional new noise dimension / noise input matrix / noise covariance from this step on (generic constructor with
         // update_weights_online: "the noise size might depend on the number of measurements available")
         long chg = t.nat();
         if (chg) {
-            nz = t.nat();
-            D = t.mat(m, nz); R = t.mat(nz, nz); Reff = t.mat(m, m);
-            if (!um1) throw vh::BadArgs("chg");
-            MatrixXd A(m, n + nz); A << H, D;
-            um1->A_ = A; um1->R_ = R; um1->in_ = VectorDescription(n, 0, nz);
-            km->setNoise(Reff);
-            w = sigma_point::UTWeight(VectorDescription(n, 0, nz), a, b, kap);
+            // 1: new noise dimension (generic constructor with update_weights_online); 2: new content of the same sizes;
+            // both carry the complete new model: H | [nz D R Reff] or [R]
+            H = t.mat(m, n);
+            if (variant == 1) { nz = t.nat(); D = t.mat(m, nz); R = t.mat(nz, nz); Reff = t.mat(m, m); } else { R = t.mat(m, m); Reff = R; }
+            if (um1) {
+                MatrixXd A(m, n + nz); A << H, D;
+                um1->A_ = A; um1->R_ = R; um1->in_ = VectorDescription(n, 0, nz);
+            } else { um0->setH(H); um0->setNoise(R); }
+            km->setH(H); km->setNoise(Reff);
+            w = sigma_point::UTWeight(VectorDescription(n, 0, variant == 1 ? nz : 0), a, b, kap);
         }
         VectorXd y = t.vec(m);
         GaussianMixture pred(k, n), corrU(k, n), corrK(k, n);
@@ -510,18 +570,25 @@ static std::string ukfcs(Toks& t) {
         Snapshot s0(pred);
         GaussianMixture inp = pred; if (variant == 1) inp.augmentWithNoise(R);
         MatrixXd X = sigma_point::sigma_point(inp, w.c);
-        uc->correct(pred, corrU);
+        if (alias) { GaussianMixture keepw = corrU; corrU = pred; corrU.weight() = keepw.weight(); uc->correct(corrU, corrU); }
+        else uc->correct(pred, corrU);
         // After a failing model call the likelihood is not asked for: what getLikelihood() reports then is C12's
         // subject (before fix 5117f2c it paired the previous step's innovations_ with a predicted_meas_ overwritten
         // by the failed transform); C04 speaks of successful steps only.
         std::pair<bool, VectorXd> likU(false, VectorXd()), likK(false, VectorXd());
-        if (fail == 0) likU = uc->getLikelihood();
+        bool lik_stable = true;
+        if (fail == 0 && !cskipping) {
+            likU = uc->getLikelihood();
+            auto again = uc->getLikelihood();   // a query must not change what the next query answers
+            lik_stable = (again.first == likU.first) && (again.second.size() == likU.second.size()) &&
+                         (likU.second.size() == 0 || std::memcmp(again.second.data(), likU.second.data(), sizeof(double) * likU.second.size()) == 0);
+        }
         kc.correct(pred, corrK);
-        if (fail == 0) likK = kc.getLikelihood();
+        if (fail == 0 && !cskipping) likK = kc.getLikelihood();
         if (s > 0) o.s(";;");
         o.n((long)X.rows()); o.n((long)X.cols());
         outGMs(o, corrU); outLik(o, likU); outGMs(o, corrK); outLik(o, likK); o.m(X);
-        o.s(s0.same(pred) ? "in-same" : "in-modified");
+        o.s(s0.same(pred) ? "in-same" : "in-modified"); o.s(lik_stable ? "lik2-same" : "lik2-differs");
     }
     t.done();
     return o.str();
@@ -533,6 +600,7 @@ int main() {
         if (op == "utwd") { out = utwd(t); return true; }
         if (op == "sp") { out = sp(t); return true; }
         if (op == "augns") { out = augns(t); return true; }
+        if (op == "augal") { out = augal(t); return true; }
         if (op == "ut") { out = ut(t); return true; }
         if (op == "utc") { out = utc(t); return true; }
         if (op == "ukfp") { out = ukfp(t); return true; }
